@@ -54,3 +54,64 @@ R.EXTERNALS["libcst.helpers.get_absolute_module_from_package_for_import"] = R.Ex
 from theories import types as _TY
 _TY.ISINSTANCE["libcst.ImportStar"] = lambda ip, o: is_star(L.fn("names_owner", L.V, L.V)(as_v(o)))
 L.axiom(T, "names-owner", L.FA(n, L.fn("names_owner", L.V, L.V)(cst_names(n)) == n, [cst_names(n)]))
+
+# ---- GatherImportsVisitor as cli.get_newly_imported_items uses it: after module.visit(gatherer) the visitor's five views are functions of the
+# visited module (what they contain is libcst's business - bounded tier; here only that they are finite maps / sets / lists of the stated shapes)
+declare_always_truthy("Gatherer", "CstModule", "CodemodContext")
+mk_item = L.fn("mk_item", L.V, L.V, L.V, L.V)          # ImportItem(module_name, obj_name, alias) with relative == 0: a frozen dataclass, equal iff the fields are
+gathered = L.fn("gathered", L.V, L.V)                   # the module a gatherer has visited
+g_symbols = declare_pred("g_symbols", L.V, L.V, tag="Dict[str,Item]")          # symbol_mapping: bound name -> the *last* import binding it
+g_modules = declare_pred("g_modules", L.V, L.V, tag="Set[str]")                # module_imports: `import m`
+g_module_aliases = declare_pred("g_module_aliases", L.V, L.V, tag="Dict[str,str]")   # module_aliases: `import m as a`
+g_objects = declare_pred("g_objects", L.V, L.V, tag="Dict[str,Set[str]]")      # object_mapping: `from m import o`
+g_aliases = declare_pred("g_aliases", L.V, L.V, tag="Dict[str,Seq[seq]]")      # alias_mapping: `from m import o as a` -> [(o, a)]
+_m, _o, _al, _it, _g = L.const("gm"), L.const("go"), L.const("gal"), L.const("git"), L.const("gg")
+L.axiom(T, "mk-item-fields", L.FA([_m, _o, _al], z3.And(item_module(mk_item(_m, _o, _al)) == _m, item_obj(mk_item(_m, _o, _al)) == _o, item_alias(mk_item(_m, _o, _al)) == _al,
+                                                        mk_item(_m, _o, _al) != L.NONE), [mk_item(_m, _o, _al)]))
+L.axiom(T, "gatherer-views", L.FA(_g, z3.And(L.is_dictlike(g_symbols(_g)), L.is_dictlike(g_module_aliases(_g)), L.is_dictlike(g_objects(_g)), L.is_dictlike(g_aliases(_g)),
+                                             g_symbols(_g) != L.NONE, g_modules(_g) != L.NONE), [gathered(_g)]))
+R.SPEC["mk_item"] = SpecFn(lambda ip, a_, kw: ZV(mk_item(*[as_v(x) for x in a_]), "Item"), "mk_item")
+
+
+def _item_ctor(ip, a_, kw, node):
+    m = as_v(a_[0])
+    o = as_v(kw["obj_name"]) if "obj_name" in kw else (as_v(a_[1]) if len(a_) > 1 else L.NONE)
+    al = as_v(kw["alias"]) if "alias" in kw else (as_v(a_[2]) if len(a_) > 2 else L.NONE)
+    if set(kw) - {"obj_name", "alias"}:
+        raise Unsupported("ImportItem(%s)" % sorted(kw))
+    return ZV(mk_item(m, o, al), "Item")
+
+
+R.EXTERNALS["libcst.codemod.visitors.ImportItem"] = R.ExtFn(_item_ctor)
+R.EXTERNALS["libcst.codemod.CodemodContext"] = R.ExtFn(lambda ip, a_, kw, node: ZV(L.fresh("codemod_context"), "CodemodContext"))
+
+
+def _gatherer_ctor(ip, a_, kw, node):
+    g = L.fresh("gatherer")
+    ip.st.assume(g != L.NONE)
+    return ZV(g, "Gatherer")
+
+
+R.EXTERNALS["libcst.codemod.visitors.GatherImportsVisitor"] = R.ExtFn(_gatherer_ctor)
+
+
+def _module_visit(ip, r, a_, kw, node):
+    g = a_[0]
+    if not (isinstance(g, ZV) and base_tag(g.tag) == "Gatherer"):
+        raise Unsupported("Module.visit(%r)" % (g,))
+    ip.st.assume(gathered(g.term) == r.term)
+    return r
+
+
+R.METHODS[("CstModule", "visit")] = _module_visit
+R.ATTRS[("Gatherer", "symbol_mapping")] = lambda ip, r: ZV(g_symbols(r.term), "Dict[str,Item]")
+R.ATTRS[("Gatherer", "module_imports")] = lambda ip, r: ZV(g_modules(r.term), "Set[str]")
+R.ATTRS[("Gatherer", "module_aliases")] = lambda ip, r: ZV(g_module_aliases(r.term), "Dict[str,str]")
+R.ATTRS[("Gatherer", "object_mapping")] = lambda ip, r: ZV(g_objects(r.term), "Dict[str,Set[str]]")
+R.ATTRS[("Gatherer", "alias_mapping")] = lambda ip, r: ZV(g_aliases(r.term), "Dict[str,Seq[seq]]")
+
+
+@spec("gathered_from")
+def _gathered_from(ip, args, kw):
+    """The gatherer state after visiting a module: a function of the module (libcst is deterministic)."""
+    return ZV(L.fn("gatherer_of", L.V, L.V)(as_v(args[0])), "Gatherer")
